@@ -131,6 +131,47 @@ def scenarios(tier):
                                'acts': [{'kind': 'remove', 'target': gone, 'actor': remover, 't': 0},
                                         {'kind': 'addN', 'actor': lead, 't': 1}, {'kind': 'removeN', 'actor': lead, 't': 2},
                                         {'kind': 'addN', 'actor': lead, 't': 3}]}
+    # two systems registered in ONE turn (same or different priorities), by one actor or by two actors of one timestep:
+    # from the next timestep on they run in the order they were registered
+    for v in ([1, 0], [0, 0, 0]):
+        n = len(v)
+        for t in (0, 1):
+            for a1 in range(n):
+                for a2 in sorted({a1, (a1 + 1) % n}):
+                    for p1, p2 in ((2, 2), (0, 0), (-2, -2), (0, 2), (2, 0), (-2, 0)):
+                        yield {'leg': 'double_add', 'prios': v, 't': t, 'steps': 4,
+                               'acts': [{'kind': 'add', 'prio': p1, 'actor': a1}, {'kind': 'add', 'prio': p2, 'actor': a2}]}
+    # three actions in one turn: the actor removes itself and its immediate follower and changes the queue ahead of its own
+    # slot (removes an earlier system / registers one of higher priority)
+    for v in ([2, 1, 1, 1, 0], [1, 1, 1, 1], [3, 2, 1, 0, -1]):
+        n = len(v)
+        for actor in range(1, n - 1):
+            for third in ({'kind': 'remove', 'target': 0}, {'kind': 'add', 'prio': 5}, {'kind': 'add', 'prio': v[actor]},
+                          {'kind': 'remove', 'target': n - 1}):
+                for order in ((0, 1, 2), (2, 0, 1), (1, 2, 0)):
+                    three = [{'kind': 'remove', 'target': actor}, {'kind': 'remove', 'target': actor + 1}, dict(third)]
+                    yield {'leg': 'triple', 'prios': v, 't': 1, 'steps': 4, 'acts': [dict(three[i], actor=actor) for i in order]}
+    # the LAST system of the queue retires mid-timestep; afterwards a system of lower priority and one in between are
+    # registered (in either order, in one or two later timesteps)
+    for v in ([2, 1, 0], [1, 1, 0], [0, 0, -1]):
+        n = len(v)
+        low = v[-1]
+        for who in (n - 1, 0):
+            for (pa, ta), (pb, tb) in (((low - 2, 1), (low - 1, 2)), ((low - 2, 1), (low - 1, 1)), ((low - 1, 1), (low - 2, 2)),
+                                       ((low - 2, 2), (low, 2)), ((low - 3, 1), (low - 1, 3))):
+                yield {'leg': 'pop_last', 'prios': v, 't': 0, 'steps': 6,
+                       'acts': [{'kind': 'remove', 'target': n - 1, 'actor': who, 't': 0},
+                                {'kind': 'add', 'prio': pa, 'actor': 0, 't': ta}, {'kind': 'add', 'prio': pb, 'actor': 0, 't': tb}]}
+    # sparse schedules: every system present at the start of the timestep runs only every 2nd / 3rd timestep; a system
+    # registered during a timestep is due in timesteps the others sit out
+    for v, fr in (([1, 0], {'0': 2, '1': 3}), ([0, 0, -1], {'0': 2, '1': 2, '2': 4}), ([2, 1], {'0': 3, '1': 3})):
+        n = len(v)
+        for actor in range(n):
+            for t in (0,):
+                for p in (3, 0, -3):
+                    for f in (1, 2):
+                        yield {'leg': 'sparse', 'prios': v, 'freqs': fr, 't': t, 'steps': 7,
+                               'acts': [{'kind': 'add', 'prio': p, 'freq': f, 'actor': actor, 't': t}]}
     # the acting system fails right after its action (the driver catches the error and carries on); what was removed
     # is registered again one or two timesteps later
     for v in ([1, 0], [1, 1], [0, 1, 0]) if tier == 'quick' else list(vectors(3)):
@@ -192,6 +233,23 @@ def scenarios(tier):
                                        'acts': [dict(x, actor=a1), dict(y, actor=a2)]}
 
 
+class DueMap(dict):
+    """ends.get(k, t) >= t  <=>  system k is due in timestep t: its window is still open (the dict itself: key -> end) and
+    t is a multiple of its frequency (all systems here start at 0)."""
+
+    def __init__(self):
+        super().__init__()
+        self.freq = {}
+
+    def get(self, k, t):
+        if t % self.freq.get(k, 1) != 0:
+            return t - 1
+        return dict.get(self, k, t)
+
+    def __getitem__(self, k):
+        return dict.get(self, k, f'every {self.freq.get(k, 1)}')
+
+
 class Halt(Exception):
     pass
 
@@ -210,7 +268,7 @@ def run_scenario(case):
     seq = [0]
     reg = {}          # key -> (priority, registration sequence number) for currently registered systems
 
-    ends = {}         # key -> last eligible timestep, for systems with a finite window
+    ends = DueMap()   # key -> last eligible timestep, for systems with a finite window (and key -> frequency)
 
     def body(self):
         if self.muted:
@@ -237,13 +295,15 @@ def run_scenario(case):
 
     class S(Core.System):
         # key names the object (unique), id is what the scheduler sees (a replacement object reuses an id)
-        def __init__(self, key, sid, prio, end=None):
-            super().__init__(sid, model, priority=prio, **({} if end is None else {'end': end}))
+        def __init__(self, key, sid, prio, end=None, freq=1):
+            super().__init__(sid, model, priority=prio, frequency=freq, **({} if end is None else {'end': end}))
             self.key = key
             self.todo = []
             self.muted = False
             if end is not None:
                 ends[key] = end
+            if freq != 1:
+                ends.freq[key] = freq
 
         execute = body
 
@@ -262,10 +322,10 @@ def run_scenario(case):
 
     coll_idx = set(case.get('collectors', ()))
 
-    def make(key, sid, prio, like=None, end=None):
+    def make(key, sid, prio, like=None, end=None, freq=1):
         cls = SC if (like is not None and isinstance(like, SC)) or (like is None and key.startswith('s') and
                                                                     key[1:].isdigit() and int(key[1:]) in coll_idx) else S
-        return cls(key, sid, prio, end)
+        return cls(key, sid, prio, end) if freq == 1 else cls(key, sid, prio, end, freq)
 
     def run_sandbox():
         # an independent little model is built and stepped from inside this system's turn
@@ -369,7 +429,7 @@ def run_scenario(case):
                 unregister('N')
         elif kind == 'add':
             key = f'n{len([k for k in objs if k.startswith("n")])}'
-            o = objs[key] = S(key, key, act['prio'])
+            o = objs[key] = S(key, key, act['prio'], None, act.get('freq', 1))
             if case.get('veteran'):
                 # the object ran in an earlier, unrelated model for some timesteps before it is handed to this one
                 old = new_model(seed=8)
@@ -383,7 +443,7 @@ def run_scenario(case):
 
     case_ends = {int(k): v for k, v in case.get('ends', {}).items()}
     for i, p in enumerate(prios):
-        objs[f's{i}'] = make(f's{i}', f's{i}', p, end=case_ends.get(i))
+        objs[f's{i}'] = make(f's{i}', f's{i}', p, end=case_ends.get(i), freq=case.get('freqs', {}).get(str(i), 1))
     if 'n_prio' in case:
         objs['N'] = S('N', 'N', case['n_prio'])
     for i in range(len(prios)):
@@ -434,7 +494,7 @@ def run_scenario(case):
 
 
 def judge(t, start_reg, ev, end_reg, ends=None, partial=False):
-    ends = ends or {}
+    ends = ends if ends is not None else {}
     runs = [k for kind, k in ev if kind == 'run']
     for k in runs:
         if ends.get(k, t) < t:
@@ -511,11 +571,14 @@ def nested_case(case):
             log.append((self.id, len(removed) > 0))
 
     removed = []
+    stepped = []
 
     class Remover(Rec):
         def execute(self):
             super().execute()
-            if self.model.systems.timestep == case['t'] and not removed:
+            late = case.get('when') == 'outer_after'
+            if not removed and ((not late and self.model.systems.timestep == case['t']) or
+                                (late and self.model.systems.timestep >= case['t'] and depth[0] == 0 and stepped)):
                 self.model.systems.remove_system('victim')
                 removed.append(True)
 
@@ -526,14 +589,21 @@ def nested_case(case):
                 depth[0] += 1
                 self.model.execute(case['inner'])
                 depth[0] -= 1
+                stepped.append(True)
     order = {'remover_first': [('remover', Remover, 5), ('stepper', Stepper, 4)],
              'stepper_first': [('stepper', Stepper, 5), ('remover', Remover, 4)]}[case['order']]
     for sid, cls, prio in order:
         model.systems.add_system(cls(sid, model, priority=prio))
     model.systems.add_system(Rec('victim', model, priority=case['victim_prio']))
+    model.systems.add_system(Rec('mid', model, priority=-1))
     model.systems.add_system(Rec('tail', model, priority=-9))
     for _ in range(case['t'] + 2):
         model.execute()
+    for who in ('mid', 'tail'):
+        runs = sum(1 for e in log if e[0] == who)
+        if runs != model.timestep:
+            raise Violation(f'system {who}, registered throughout behind the acting systems, did not run once per step of the '
+                            f'model - outer and nested steps alike ({case})', expected=model.timestep, observed=runs)
     bad = [e for e in log if e == ('victim', True)]
     if bad:
         raise Violation(f'a system removed during timestep {case["t"]} ran afterwards (another system advanced the model from '
@@ -547,6 +617,8 @@ def nested_cases():
             for inner in (1, 2):
                 for vp in (6, 3, 0):
                     yield {'leg': 'nested', 'order': order, 't': t, 'inner': inner, 'victim_prio': vp}
+                    if order == 'stepper_first':
+                        yield {'leg': 'nested', 'order': order, 't': t, 'inner': inner, 'victim_prio': vp, 'when': 'outer_after'}
 
 
 def run(ctx):
